@@ -513,27 +513,36 @@ SignalHandler::SignalHandler(BasicSolver &s)
   signal_message_ptr_ = message_.c_str();
   MP_VERIF_SIGPOINT(101);
   signal_message_size_ = static_cast<unsigned>(message_.size());
-  std::signal(SIGINT, HandleSigInt);
-  std::signal(SIGTERM, HandleSigInt);
+  // Reset the counter before installing the handlers: an interrupt arriving
+  // right after installation must not be overwritten.
   MP_VERIF_SIGPOINT(102);
   stop_ = 0;
+  std::signal(SIGINT, HandleSigInt);
+  std::signal(SIGTERM, HandleSigInt);
 }
 
 SignalHandler::~SignalHandler() {
   solver_.set_interrupter(0);
   MP_VERIF_SIGPOINT(200);
-  stop_ = 1;
-  MP_VERIF_SIGPOINT(201);
-  handler_ = 0;
+  if (stop_ == 0) { // don't lower the count of interrupts received so far
+    MP_VERIF_SIGPOINT(201);
+    stop_ = 1;
+  }
   MP_VERIF_SIGPOINT(202);
+  handler_ = 0;
+  MP_VERIF_SIGPOINT(203);
   signal_message_size_ = 0;
 }
 
 void SignalHandler::SetHandler(InterruptHandler handler, void *data) {
+  // Unregister first so that an interrupt in between never sees
+  // the new handler paired with the old data (or vice versa).
   MP_VERIF_SIGPOINT(300);
-  handler_ = handler;
+  handler_ = 0;
   MP_VERIF_SIGPOINT(301);
   data_ = data;
+  MP_VERIF_SIGPOINT(302);
+  handler_ = handler;
 }
 
 void SignalHandler::HandleSigInt(int sig) {
